@@ -253,6 +253,9 @@ def work(first):
 
 
 def run():
+    import gc
+    gc.collect()
+    gc.freeze()          # forked workers then do not copy the parent heap page by page
     ck = core.Check("C37", "model_checking", META["technique"])
     parts = core.pmap(work, creations())
     # keep, per violation group, the shortest history (ties: first shard) so the key is the minimal one
